@@ -41,6 +41,11 @@ observe.register_formats()
 _DEV = lambda store: ref6.Opts(int_is_int=True, formats=sg.FORMAT_PREDICATES, waiver=True, store=store)  # noqa: E731
 
 
+# caller-supplied definition names are arbitrary strings: a reference to one must still resolve (JSON Pointer
+# escaping inside a URI fragment)
+ODD_KEYS = ["a/b", "a~b", "postal address", "50%", "a%41", "\u00e9", "~1", "x/y~z", "a+b"]
+
+
 @st.composite
 def cases(draw, ctx):
     depth = 3
@@ -73,11 +78,11 @@ def cases(draw, ctx):
             nid = draw(st.sampled_from(ids))
             node = idx[nid]
             key = node["name"] if node["kind"] == "Object" and draw(st.booleans()) else draw(
-                st.sampled_from(["D1", "D2", "shared", "Votes"]))
+                st.sampled_from(["D1", "D2", "shared", "Votes"] + ODD_KEYS))
             defs.append({"key": key, "pick": nid, "copy": draw(st.booleans())})
     if mode in ("independent", "mixed"):
         ind = draw(R.recipes(cfg, depth=2, _gen=gen))
-        defs.append({"key": draw(st.sampled_from(["X", "Y", "D1"])), "recipe": ind})
+        defs.append({"key": draw(st.sampled_from(["X", "Y", "D1"] + ODD_KEYS)), "recipe": ind})
     schema = R.to_schema(recipe, R.index([recipe] + extra_roots + [d["recipe"] for d in defs if "recipe" in d]))
     values = draw(values_for(schema, 4, 8))
     return {"mode": "dsl", "recipe": recipe, "extra_roots": extra_roots, "defs": defs, "values": values}
